@@ -24,7 +24,7 @@ Task:
    NOTE: on the unmodified tree exactly 12 tests fail (SUMIF/SUMIFS/countifs/sumifs and Array cast_to_* tests, because the installed pandas lacks applymap) and 815 pass; that is the baseline. Your change must not alter which tests pass (still "12 failed, 815 passed"). Run without -x to see the totals.
    IMPORTANT: python imports `xlcalculator` from the current directory first, so always run python with cwd=/tmp/seed_C{num} or put /tmp/seed_C{num} first on sys.path; otherwise you would be testing /repo.
 3. The bug must need something SPECIFIC to manifest - e.g. an unusual input, a particular multi-step sequence of operations, a particular value/size/position boundary, or two cooperating code sites that each look fine alone. It must NOT be something ordinary use (or the simplest imaginable example of the property) would expose at once. Think of what a plausible refactoring slip, off-by-one, wrong cache key, swapped argument, or over-eager optimisation would look like. Prefer a bug whose wrong behaviour is a wrong VALUE or wrong structure, rather than a crash.
-4. Write a demonstration program /tmp/seed_out/C{num}/demo.py : a standalone script taking the tree path as argv[1] (default /tmp/seed_C{num}), inserting it first in sys.path, using only the public API (import xlcalculator; ModelCompiler().read_and_parse_dict / read_and_parse_archive, Evaluator.evaluate/set_cell_value/get_cell_value, xlcalculator.FUNCTIONS[...], parser.FormulaParser().parse, Model.persist_to_json_file ... as appropriate), that exits 0 (prints PASS) on the unmodified tree and exits 1 (prints FAIL with the observed vs expected values) with your change. Verify both: run it against your modified worktree (must FAIL) and, after `git stash`, against the clean worktree (must PASS); then `git stash pop`.
+4. Write a demonstration program /tmp/seed_out/C{num}/demo.py : a standalone script taking the tree path as argv[1] (default /tmp/seed_C{num}), inserting it first in sys.path, using only the public API (import xlcalculator; ModelCompiler().read_and_parse_dict / read_and_parse_archive, Evaluator.evaluate/set_cell_value/get_cell_value, xlcalculator.FUNCTIONS[...], parser.FormulaParser().parse, Model.persist_to_json_file ... as appropriate), that exits 0 (prints PASS) on the unmodified tree and exits 1 (prints FAIL with the observed vs expected values) with your change. Verify both: run it against your modified worktree (must FAIL) and, after reverting your change with `git diff > /tmp/mychange.diff; git apply -R /tmp/mychange.diff` (never `git stash`: the stash is shared between worktrees and other agents run concurrently), against the clean worktree (must PASS); then re-apply it with `git apply /tmp/mychange.diff`.
 5. Save the change as /tmp/seed_out/C{num}/patch.diff (cd /tmp/seed_C{num} && git diff > /tmp/seed_out/C{num}/patch.diff) and write /tmp/seed_out/C{num}/notes.md with: what the change is, exactly what it needs in order to manifest (inputs / sequence), the test-suite totals you observed with the change, and the demo output with and without the change.
 6. Leave the worktree with the change applied. Do not commit anything.
 
